@@ -18,6 +18,7 @@ logger = Log(__name__)
 logger.debug("loading module")
 from amoco.ui import render
 import operator
+from copy import copy as _copy
 
 
 # decorators:
@@ -955,7 +956,8 @@ class reg(exp):
         return [(render.Token.Register, "%s" % self)]
 
     def eval(self, env):
-        r = env[self]
+        # the value bound in env is shared: flag a copy, not the bound object
+        r = _copy(env[self])
         r.sf = self.sf
         return r
 
